@@ -16,3 +16,23 @@ def lemma_error_source_passes_through(text):
         assert piece == text
         assert len(src.trailing) == 0
     return None
+
+
+def lemma_context_served_only_to_its_owner(a, b, ctx):
+    """C10: a context stored for one object is returned for that object; another object never receives it unless
+    it was (validly) stored for that object too - even when the registry held an arbitrary, possibly stale
+    same-id entry for it before."""
+    from nix_manipulator.resolution import _CONTEXTS, _get_context, _store_context
+
+    before_b = _CONTEXTS.get(id(b))
+    _store_context(a, ctx)
+    got = _get_context(a)
+    assert got is ctx
+    if b is not a:
+        other = _get_context(b)
+        if other is not None:
+            # what b gets is what the registry validly held for b itself (weak reference still pointing at b)
+            assert before_b is not None
+            assert before_b[0]() is b
+            assert other is before_b[1]
+    return None
